@@ -26,7 +26,7 @@ RULE = (
     "active branch in the non-neutral reading (a limit below the equilibrium speed; origin flow not demand-limited; "
     "first-segment speed below the critical speed). Distinct = SHA-1 of the case."
 )
-BUDGET = {"quick": {"examples": 300, "shards": 4}, "thorough": {"examples": 3000, "shards": 16}}
+BUDGET = {"quick": {"examples": 300, "shards": 4}, "thorough": {"fuzz_runs": 3000, "examples": 3000, "shards": 16}}
 RELS = ("vsl-neutral", "vsl-finite", "in-vs-out", "simp-vs-ramp", "main-inf")
 EXPECTED_LABELS = tuple("rel:" + r for r in RELS) + ("engine:numpy", "engine:SX", "engine:MX", "vsl:noncontiguous", "vsl:empty-set",
                                                      "active", "interior-ramp")
@@ -43,6 +43,8 @@ def cases(draw):
     tgt = None
     if rel.startswith("vsl"):
         l = sp["links"][draw(st.integers(0, len(sp["links"]) - 1))]
+        if draw(st.booleans()):  # prefer a long link so that non-contiguous sign sets are possible
+            l = max(sp["links"], key=lambda x: x["N"])
         tgt = l["id"]
         sub = sorted(draw(st.sets(st.integers(0, l["N"] - 1), min_size=0 if rel == "vsl-neutral" else 1, max_size=l["N"])))
         l["vsl"], l["alpha"] = sub, draw(fl(0, 0.5))
